@@ -179,3 +179,26 @@ pub open spec fn cell_after_sync(st: ServerState, ns: ServerState, fresh_ttl: Du
             else { ns == ServerState::DoesNotExist },
     }
 }
+
+// ---- finalize ------------------------------------------------------------------------------------
+pub open spec fn opt_str_eq(a: Option<String>, b: Option<String>) -> bool {
+    match (a, b) { (Some(x), Some(y)) => x@ == y@, (None, None) => true, _ => false }
+}
+/// the attributes the property lists, as configured (C12)
+pub open spec fn cookie_attributes_ok(ck: ResponseCookie<'static>, cfg: &SessionConfig) -> bool {
+    &&& ck.name@ == cfg.cookie.name@
+    &&& opt_str_eq(ck.domain, cfg.cookie.domain)
+    &&& opt_str_eq(ck.path, cfg.cookie.path)
+    &&& ck.same_site == cfg.cookie.same_site
+    &&& ((ck.secure == Some(true)) == cfg.cookie.secure) && ck.secure != Some(false)
+    &&& ((ck.http_only == Some(true)) == cfg.cookie.http_only) && ck.http_only != Some(false)
+    &&& ck.max_age == (if cfg.cookie.kind == SessionCookieKind::Persistent {
+            Some(match dur_to_signed(cfg.state.ttl) { Some(s) => s, None => signed_max() })
+        } else { None::<SignedDuration> })
+}
+pub open spec fn removal_attributes_ok(ck: ResponseCookie<'static>, cfg: &SessionConfig) -> bool {
+    &&& ck.removal
+    &&& ck.name@ == cfg.cookie.name@
+    &&& opt_str_eq(ck.domain, cfg.cookie.domain)
+    &&& opt_str_eq(ck.path, cfg.cookie.path)
+}
